@@ -143,7 +143,10 @@ class Write(Harness):
              "chromsizes": [[[1, 0], [4, 0]]],
              "vcf": [[[1, 0, 1, 1, 2, 1, 1, 3]], [[2, 0, 1, 2, 1, 1, 4, 1], [1, 0, 2, 1, 1, 1, 1, 2]]],
              "gtf": [[[1, 2, 1, 0, 0, 1, 0, 1, 3], [2, 1, 4, 0, 0, 1, 0, 1, 1]]],
-             "bed12": [[[1, 0, 0, 1, 0, 0, 0, 0, 1, 0, 2, 2], [2, 0, 0, 1, 0, 0, 0, 0, 1, 0, 1, 1], [1, 0, 0, 2, 0, 0, 0, 0, 1, 0, 3, 3]]],
+             "bed12": [[[1, 0, 0, 1, 0, 0, 0, 0, 1, 0, 2, 2], [2, 0, 0, 1, 0, 0, 0, 0, 1, 0, 1, 1], [1, 0, 0, 2, 0, 0, 0, 0, 1, 0, 3, 3]],
+                       # records whose lists are EMPTY: in the middle and at the end of the table
+                       [[1, 0, 0, 1, 0, 0, 0, 0, 1, 0, 2, 2], [1, 0, 0, 1, 0, 0, 0, 0, 1, 0, 0, 0], [1, 0, 0, 1, 0, 0, 0, 0, 1, 0, 1, 1],
+                        [1, 0, 0, 1, 0, 0, 0, 0, 1, 0, 0, 0]]],
              "fasta2": [[[1, 1]], [[2, 3], [1, 1]]],
              "fastq": [[[1, 1, 1]], [[2, 3, 3], [1, 1, 1]], [[1, 2, 2], [1, 1, 1], [2, 2, 2]]]}
         for tab, rowsets in T.items():
@@ -155,7 +158,7 @@ class Write(Harness):
                     splits = [(), (n // 2,)] + ([(0,), (0, 0)] if tab in ("vcf", "bed3") else []) + ([(n,)] if tab == "bed3" else [])
                     splits = [s for i, s in enumerate(splits) if s not in splits[:i]]
                 if tab == "bed12":
-                    splits = [(), (1,), (1, 2)] if tier == "quick" else splits
+                    splits = ([(), (1,), (1, 2)] if n == 3 else [(), (2,), (1, 2)]) if tier == "quick" else splits      # (1, 2): a piece holding only empty lists
                 for cuts in splits:
                     sk = dict(table=tab, rows=rows, cuts=list(cuts))
                     if tab == "bed12":
@@ -330,6 +333,10 @@ class Write(Harness):
                         return False
                     conj.append(TI(gc[0]) == z3.If(ec[1] == 0, 43, z3.If(ec[1] == 1, 45, 46)))
                 elif ec[0] == "ilist":
+                    if not ec[1]:                  # an empty list is an empty cell
+                        if gc:
+                            return False
+                        continue
                     # elements in canonical decimal joined by ',' (the commas are concrete bytes of the output)
                     parts, cur = [], []
                     for b in gc:
